@@ -13,18 +13,20 @@
    histories independently: a history is linearizable iff TLC reaches a state where all its calls
    are placed, which prints "LIN <h>".  The caller compares the set of printed ids with the file.
 
-   Split = TRUE is the weaker reading of ReleaseAll (its locks are freed one after the other, each
+   split = TRUE is the weaker reading of ReleaseAll (its locks are freed one after the other, each
    atomically, anywhere inside the call); it is only used to classify a history that fails the
-   strict reading. *)
+   strict reading and prints "LINS <h>".  Modes = {FALSE} judges the strict reading only,
+   {FALSE, TRUE} both in one run. *)
 EXTENDS LockAtomic, Sequences, TLC, Json
 
-CONSTANTS Split
+CONSTANTS Modes      \* subset of BOOLEAN: the readings of ReleaseAll to try (FALSE = atomic, TRUE = lock by lock)
 TraceLog == ndJsonDeserialize("trace_locks.ndjson")
 
 VARIABLES h,      \* index of the history in TraceLog
+          split,  \* the reading of ReleaseAll used for this search
           done,   \* calls already placed in the linearisation
-          part    \* Split: part[i] = locks already freed by the running ReleaseAll number i
-tvars == <<ast, h, done, part>>
+          part    \* lock-by-lock reading: part[i] = locks already freed by the running ReleaseAll number i
+tvars == <<ast, h, split, done, part>>
 
 C == TraceLog[h].calls
 N == Len(C)
@@ -41,37 +43,38 @@ Ready(i) == /\ i \notin done
             /\ \A j \in 1..N : (j \notin done /\ j # i) => ~(C[j].en < C[i].st)
 
 TInit == /\ h \in 1..Len(TraceLog)
+         /\ split \in Modes
          /\ done = {}
          /\ ast = AInit
          /\ part = [i \in 1..Len(TraceLog[h].calls) |-> 0]
 
 Place(i) ==
     /\ Ready(i)
-    /\ ~(Split /\ C[i].k = "relall")
+    /\ ~(split /\ C[i].k = "relall")
     /\ Enabled(ast, C[i].s, OpOf(C[i]))
     /\ LET a == Apply(ast, C[i].s, OpOf(C[i])) IN
        /\ C[i].p \/ a.ret = Reply(C[i])
        /\ ast' = a.st
     /\ done' = done \cup {i}
-    /\ UNCHANGED <<h, part>>
+    /\ UNCHANGED <<h, split, part>>
 
-\* Split reading of ReleaseAll: free one lock of the caller ...
+\* lock-by-lock reading of ReleaseAll: free one lock of the caller ...
 RelPart(i, n) ==
-    /\ Split /\ Ready(i) /\ C[i].k = "relall"
+    /\ split /\ Ready(i) /\ C[i].k = "relall"
     /\ ast.own[n] = C[i].s
     /\ ast' = FreeAll(ast, {n})
     /\ part' = [part EXCEPT ![i] = @ + 1]
-    /\ UNCHANGED <<h, done>>
+    /\ UNCHANGED <<h, split, done>>
 \* ... and return once nothing is left, with the number freed
 RelEnd(i) ==
-    /\ Split /\ Ready(i) /\ C[i].k = "relall"
+    /\ split /\ Ready(i) /\ C[i].k = "relall"
     /\ C[i].p \/ (Owned(ast, C[i].s) = {} /\ part[i] = C[i].ri)
     /\ done' = done \cup {i}
-    /\ UNCHANGED <<ast, h, part>>
+    /\ UNCHANGED <<ast, h, split, part>>
 
 TNext == \E i \in 1..N : Place(i) \/ RelEnd(i) \/ \E n \in Names : RelPart(i, n)
 
 \* a pending call need not be placed at all
 Complete == \A i \in 1..N : i \in done \/ C[i].p
-Report == ~Complete \/ PrintT("LIN " \o ToString(TraceLog[h].h))
+Report == ~Complete \/ PrintT((IF split THEN "LINS " ELSE "LIN ") \o ToString(TraceLog[h].h))
 =============================================================================
